@@ -77,7 +77,7 @@ def verify_strategy(tier):
     return st.fixed_dictionaries(
         {
             "d": gen.secrets(), "msg": gen.b32(), "aux": gen.b32(),
-            "mut": st.sampled_from(MUTS),
+            "mut": gen.choice(MUTS),
             "bit": st.integers(0, 511), "j": st.integers(0, 2**32 + 976),
             "rnd": st.binary(min_size=64, max_size=64),
             "k2": gen.uniform_int(1, N - 1),
